@@ -3,9 +3,27 @@
 //!
 //! Request line (one scenario):
 //! ```text
-//! sc cap=<bytes> poll=<ms> timeout=<ms> out=<c|n|i> err=<c|n|i> reps=<k> hogs=<n> [fixed=<0|1>] | <child token>...
+//! sc cap=<bytes> poll=<ms> timeout=<ms> out=<c|n|i> err=<c|n|i> reps=<k> hogs=<n> [fixed=<0|1>] [stdin=<bytes>] | <child token>...
 //! utf8 <hex>                       -> valid | invalid          (`std::str::from_utf8`, ties `validUtf8`)
+//! rd cap=<bytes> code=<1|2> flag=<0|1|2> ev=<event>,...
+//!                                  -> ok:<len>:<flag> | err:<flag>
 //! ```
+//! `stdin=<n>`: the run gets `StdinPolicy::Text` of n bytes (otherwise `Null`): the stdin writer thread.
+//!
+//! `rd`: the REAL reader loop `read_captured_stream` (hook `sys::verif_read_captured_stream`) on a
+//! scripted `Read`, the flag starting at `flag`; answer = the loop's result and the flag's final value.
+//! The hook names a private function, so a refactoring of that function can stop the crate from
+//! compiling with the hook's feature. It therefore has a feature of its own and is used only by the
+//! separate binary `nvcaprd` (`/verif/harness-caprd/main.rs`), which `checks/c16.py` builds by itself:
+//! if that build fails, C16 has a broken tie (`hook-missing`) and nobody else is affected. This
+//! harness generates the `rd` requests (`gen --mode rd`) and answers `nohook` to them.
+//! (`join_capture` is deliberately not hooked at all: seed C16-b1 refactors it away.) Events: `d<n>` / `m<n>` /
+//! `x<n>` = n bytes of ASCII / 3-byte characters / 0xFF (a piece longer than the buffer `read` is handed
+//! arrives over several reads), `z` = `Ok(0)`, `E:<kind>` = `Err` of that `io::ErrorKind` (interrupted,
+//! wouldblock, other, brokenpipe, unexpectedeof, timedout, connreset), `-` = no event; a script that
+//! has run out keeps returning `Ok(0)`. Oracle (no model needed): `Ok` with the flag still 0 must hold
+//! exactly the data before the first zero-length read with no failing read before it; any `Ok` holds a
+//! prefix of the data, at most `cap` bytes; the flag only ever moves from 0 to `code`.
 //! Child tokens, executed in order by `nvh capture child pidfile=<path> us=<n> <token>...`:
 //! ```text
 //! s<ms>        sleep
@@ -13,6 +31,7 @@
 //! e<n><k>      ... of stderr pattern k                                   g 4-byte chars, x invalid)
 //! p            restore the default SIGPIPE disposition (a write to a closed pipe then kills the child)
 //! x<code>      exit(code)        k   kill(getpid(), SIGKILL)        h   hang (sleep for ever)
+//! r            read stdin to its end          r<n>  read n bytes of stdin          c   close stdin
 //! ```
 //! The patterns are functions of (stream, pattern, offset in the stream), so the harness, the child
 //! and the Lean driver all know every byte; stdout and stderr use different bytes.
@@ -26,11 +45,12 @@
 //! `ORACLE-FAIL <line> <what>` on stderr: an `ok` whose captured stream is not exactly what the child
 //! was told to write, is above the cap, or is non-null for an uncaptured stream; `success` not equal
 //! to `exit_code == 0`; an exit code that is not the planned one; the child's pid still present
-//! afterwards (running or zombie); a run that does not return.
+//! afterwards (running or zombie); a run that does not return; an `ok` for a child that was still
+//! asleep half a second after its timeout.
 
 use std::collections::BTreeMap;
 use std::fs::File;
-use std::io::Write;
+use std::io::{self, Write};
 use std::os::fd::FromRawFd;
 use std::sync::atomic::{AtomicBool, AtomicUsize, Ordering};
 use std::sync::{Arc, Mutex, mpsc};
@@ -51,7 +71,7 @@ pub fn main(args: &[String]) -> i32 {
         Some("child") => child(&args[1..]),
         _ => {
             eprintln!(
-                "usage: nvh capture gen --seed S --n N [--mode mix|d16|race] | nvh capture run [--jobs J] < requests | nvh capture child ..."
+                "usage: nvh capture gen --seed S --n N [--mode mix|d16|race|utf8|rd|stdin] | nvh capture run [--jobs J] < requests | nvh capture child ..."
             );
             2
         }
@@ -99,6 +119,8 @@ enum Tok {
     Exit(i32),
     KillSelf,
     Hang,
+    ReadIn(Option<usize>),
+    CloseIn,
 }
 
 fn parse_tok(t: &str) -> Option<Tok> {
@@ -116,6 +138,9 @@ fn parse_tok(t: &str) -> Option<Tok> {
         b'x' => Some(Tok::Exit(t[1..].parse().ok()?)),
         b'k' if t.len() == 1 => Some(Tok::KillSelf),
         b'h' if t.len() == 1 => Some(Tok::Hang),
+        b'c' if t.len() == 1 => Some(Tok::CloseIn),
+        b'r' if t.len() == 1 => Some(Tok::ReadIn(None)),
+        b'r' => Some(Tok::ReadIn(Some(t[1..].parse().ok()?))),
         _ => None,
     }
 }
@@ -208,6 +233,24 @@ fn child(args: &[String]) -> i32 {
             Tok::Hang => loop {
                 std::thread::sleep(Duration::from_secs(3600));
             },
+            Tok::ReadIn(limit) => {
+                let mut buf = vec![0u8; 65_536];
+                let mut got = 0usize;
+                while limit.is_none_or(|l| got < l) {
+                    let want = limit.map_or(buf.len(), |l| (l - got).min(buf.len()));
+                    let n = unsafe { libc::read(0, buf.as_mut_ptr().cast(), want) };
+                    if n < 0 && io::Error::last_os_error().kind() == io::ErrorKind::Interrupted {
+                        continue;
+                    }
+                    if n <= 0 {
+                        break;
+                    }
+                    got += n as usize;
+                }
+            }
+            Tok::CloseIn => unsafe {
+                libc::close(0);
+            },
         }
     }
     0
@@ -225,6 +268,7 @@ struct Scenario {
     err: OutputPolicy,
     reps: u32,
     hogs: u32,
+    stdin: Option<usize>,
     toks: Vec<Tok>,
     raw_toks: Vec<String>,
 }
@@ -251,6 +295,7 @@ fn parse_scenario(line: &str) -> Option<Scenario> {
         err: OutputPolicy::Capture,
         reps: 1,
         hogs: 0,
+        stdin: None,
         toks: Vec::new(),
         raw_toks: Vec::new(),
     };
@@ -271,6 +316,7 @@ fn parse_scenario(line: &str) -> Option<Scenario> {
                 "err" => sc.err = pol(v)?,
                 "reps" => sc.reps = v.parse().ok()?,
                 "hogs" => sc.hogs = v.parse().ok()?,
+                "stdin" => sc.stdin = Some(v.parse().ok()?),
                 "fixed" => {} // model-side switch (which join_capture is modelled); ignored here
                 _ => return None,
             }
@@ -372,7 +418,10 @@ fn run_rep(sc: &Scenario, rep: u32, tmpdir: &str, exe: &str) -> RepResult {
             let arena = Arena::new(8 << 20).expect("arena");
             let args: Vec<ArenaString<'_>> =
                 argv.iter().map(|a| ArenaString::from_str(&arena, a)).collect();
-            let stdin = StdinPolicy::Null;
+            let stdin = match sc2.stdin {
+                None => StdinPolicy::Null,
+                Some(n) => StdinPolicy::Text(ArenaString::from_str(&arena, &"i".repeat(n))),
+            };
             let spec = ProcessSpec {
                 program: &exe2,
                 args: &args,
@@ -412,6 +461,13 @@ fn run_rep(sc: &Scenario, rep: u32, tmpdir: &str, exe: &str) -> RepResult {
     let read_pid = || -> Option<i32> { std::fs::read_to_string(&pidfile).ok()?.trim().parse().ok() };
     // generous wall limit: the scenario's own timeout plus its sleeps plus slack
     let sleeps: u64 = sc.toks.iter().map(|t| if let Tok::Sleep(ms) = t { *ms } else { 0 }).sum();
+    // what the child sleeps before it ends by itself: a lower bound of its life time
+    let asleep: u64 = sc
+        .toks
+        .iter()
+        .take_while(|t| !matches!(t, Tok::Exit(_) | Tok::KillSelf | Tok::Hang))
+        .map(|t| if let Tok::Sleep(ms) = t { *ms } else { 0 })
+        .sum();
     let limit = Duration::from_millis(u64::from(sc.timeout) + sleeps + 8_000);
     let mut oracle = Vec::new();
     let res = match rx.recv_timeout(limit) {
@@ -471,6 +527,11 @@ fn run_rep(sc: &Scenario, rep: u32, tmpdir: &str, exe: &str) -> RepResult {
             let hangs = sc.toks.iter().any(|t| matches!(t, Tok::Hang));
             if hangs {
                 oracle.push("ok result for a child that never exits".to_string());
+            } else if asleep >= u64::from(sc.timeout) + 500 {
+                oracle.push(format!(
+                    "ok result for a child that sleeps {asleep} ms, timeout {} ms: no timeout error and the child was not killed",
+                    sc.timeout
+                ));
             } else if let Some(pc) = planned_code
                 && pc != code
             {
@@ -547,6 +608,9 @@ fn run(args: &[String]) -> i32 {
                 let mut oracle = Vec::new();
                 let answer = if let Some(h) = line.strip_prefix("utf8 ") {
                     utf8_answer(h.trim())
+                } else if line.starts_with("rd ") {
+                    // answered by the separate binary `nvcaprd` (harness-caprd/main.rs), see the header
+                    "nohook".to_string()
                 } else if let Some(sc) = parse_scenario(line) {
                     let mut outs: BTreeMap<String, u32> = BTreeMap::new();
                     let mut pids: BTreeMap<&'static str, u32> = BTreeMap::new();
@@ -646,6 +710,14 @@ fn generate(args: &[String]) -> i32 {
     let mut out = util::Out::new();
     if mode == "utf8" {
         gen_utf8(&mut rng, n, &mut out);
+        return 0;
+    }
+    if mode == "rd" {
+        gen_rd(&mut rng, n, &mut out);
+        return 0;
+    }
+    if mode == "stdin" {
+        gen_stdin(&mut rng, n, &mut out);
         return 0;
     }
     for i in 0..n {
@@ -784,6 +856,174 @@ fn generate(args: &[String]) -> i32 {
         ));
     }
     0
+}
+
+const ERR_KINDS: [&str; 7] =
+    ["interrupted", "wouldblock", "other", "brokenpipe", "unexpectedeof", "timedout", "connreset"];
+
+/// Scripts for the `rd` sub-stream: data around the cap and around the reader's chunk, failing reads
+/// at the first read, after the cap has been reached exactly, between two pieces that together
+/// overflow, after an overflow, after the end of the stream; zero-length reads; a flag already taken.
+fn gen_rd(rng: &mut Rng, n: u64, out: &mut util::Out) {
+    let caps: &[u32] = &[0, 1, 5, 16, 100, 999, 8191, 8192, 8193, 20_000];
+    for i in 0..n {
+        let cap = *rng.pick(caps);
+        let c = cap as usize;
+        let code = 1 + rng.below(2);
+        let mut flag = 0u64;
+        let kind = |rng: &mut Rng| *rng.pick(&['d', 'd', 'd', 'm', 'x']);
+        let fail = |rng: &mut Rng| format!("E:{}", rng.pick(&ERR_KINDS));
+        let mut evs: Vec<String> = Vec::new();
+        // split `total` bytes into 1..=3 data events
+        let pieces = |rng: &mut Rng, total: usize, evs: &mut Vec<String>| {
+            if total == 0 {
+                return;
+            }
+            let parts = 1 + rng.below(3) as usize;
+            let mut cuts: Vec<usize> = (0..parts - 1).map(|_| rng.below(total as u64 + 1) as usize).collect();
+            cuts.push(0);
+            cuts.push(total);
+            cuts.sort_unstable();
+            let k = *rng.pick(&['d', 'd', 'm']);
+            for w in cuts.windows(2).filter(|w| w[1] > w[0]) {
+                evs.push(format!("{k}{}", w[1] - w[0]));
+            }
+        };
+        match i % 10 {
+            0 => {
+                // a failing read first
+                evs.push(fail(rng));
+                let t = rng.below(c as u64 + 2) as usize;
+                pieces(rng, t, &mut evs);
+            }
+            1 => {
+                // the cap reached exactly, then a failing read (then more data, or the end)
+                pieces(rng, c, &mut evs);
+                evs.push(fail(rng));
+                if rng.chance(1, 2) {
+                    evs.push(format!("{}{}", kind(rng), 1 + rng.below(5)));
+                }
+                evs.push("z".into());
+            }
+            2 => {
+                // a failing read between two pieces that together overflow
+                let a = rng.below(c as u64 + 1) as usize;
+                if a > 0 {
+                    evs.push(format!("d{a}"));
+                }
+                evs.push(fail(rng));
+                evs.push(format!("d{}", c - a + 1 + rng.below(3) as usize));
+            }
+            3 => {
+                // overflow, then a failing read that the loop never gets to
+                let t = rng.below(c as u64 + 1) as usize;
+                pieces(rng, t, &mut evs);
+                evs.push(format!("d{}", c + 1));
+                evs.push(fail(rng));
+            }
+            4 => {
+                // the end of the stream, then a failing read / more data that is never read
+                let t = rng.below(c as u64 + 1) as usize;
+                pieces(rng, t, &mut evs);
+                evs.push((*rng.pick(&["z", "d0"])).into());
+                evs.push(fail(rng));
+                evs.push("d3".into());
+            }
+            5 => {
+                // pieces longer than the reader's buffer
+                let total = *rng.pick(&[8192usize, 8193, 16_384, 16_385, 20_000, 30_000]);
+                evs.push(format!("d{total}"));
+                if rng.chance(1, 2) {
+                    evs.push(fail(rng));
+                }
+                evs.push(format!("d{}", rng.below(9000)));
+            }
+            6 => {
+                // the flag is already taken by the other stream: the CAS must not overwrite it
+                flag = 3 - code;
+                let t = c + 1 + rng.below(4) as usize;
+                pieces(rng, t, &mut evs);
+                if rng.chance(1, 3) {
+                    evs.insert(0, fail(rng));
+                }
+            }
+            7 => {
+                // text that is not UTF-8, or cut inside a character at the end
+                let t = rng.below(c as u64 + 1) as usize;
+                pieces(rng, t, &mut evs);
+                if rng.chance(1, 2) {
+                    evs.push(format!("x{}", 1 + rng.below(3)));
+                }
+                if rng.chance(1, 3) {
+                    evs.push(fail(rng));
+                }
+            }
+            _ => {
+                let k = rng.below(7);
+                for _ in 0..k {
+                    match rng.below(10) {
+                        0 => evs.push("z".into()),
+                        1 | 2 => evs.push(fail(rng)),
+                        _ => {
+                            let sz = match rng.below(8) {
+                                0 => 0,
+                                1 => c,
+                                2 => c + 1,
+                                3 => c / 2,
+                                4 => 8192,
+                                5 => 8193,
+                                _ => rng.below(c as u64 + 3) as usize,
+                            };
+                            evs.push(format!("{}{sz}", kind(rng)));
+                        }
+                    }
+                }
+                if rng.chance(1, 6) {
+                    flag = rng.below(3);
+                }
+            }
+        }
+        let ev = if evs.is_empty() { "-".to_string() } else { evs.join(",") };
+        out.line(&format!("rd cap={cap} code={code} flag={flag} ev={ev}"));
+    }
+}
+
+/// Scenarios with stdin text: sizes around the pipe capacity against children that read all of it,
+/// none of it (and outlive the timeout, or exit at once), or a little and then close it. The first
+/// `n` of a fixed matrix (sleeping children first), in a seed-dependent order within each group.
+fn gen_stdin(rng: &mut Rng, n: u64, out: &mut util::Out) {
+    let sizes: [usize; 7] = [0, 1024, 65_535, 65_536, 65_537, 262_144, 1_048_576];
+    let mut late: Vec<String> = Vec::new();
+    let mut rest: Vec<String> = Vec::new();
+    for (si, &sz) in sizes.iter().enumerate() {
+        let timeout = 200 + rng.below(101);
+        let poll = *rng.pick(&[1u32, 2, 5, 10]);
+        let head = |timeout: u64, reps: u32| {
+            format!("sc cap=100 poll={poll} timeout={timeout} out=c err=c reps={reps} hogs=0 stdin={sz} |")
+        };
+        // (b) reads none of its stdin and is still asleep long after the timeout, then exits by itself
+        let o = rng.below(30);
+        late.push(format!("{} o{o}a s{} e2a x0", head(timeout, 1), timeout + 1500));
+        // (b') … or never exits; sometimes after too much output
+        if si % 2 == 0 {
+            late.push(format!("{} e3a h", head(timeout, 1)));
+        } else {
+            late.push(format!("{} o101a h", head(timeout, 1)));
+        }
+        // (a) reads all of it
+        rest.push(format!("{} r o{}a x{}", head(20_000, 2), rng.below(100), rng.pick(&CODES)));
+        // (c) reads none and exits at once
+        rest.push(format!("{} x{}", head(20_000, 2), rng.pick(&CODES)));
+        // (d) reads a little, closes its stdin, carries on
+        rest.push(format!("{} r{} c s{} o6m x0", head(20_000, 2), 1 + rng.below(200), 5 + rng.below(40)));
+        // reads some, never closes, exits: the rest of the text meets a dead child
+        if si % 3 == 1 {
+            rest.push(format!("{} r{} s10 e101a x2", head(20_000, 1), 50_000 + rng.below(30_000)));
+        }
+    }
+    for l in late.into_iter().chain(rest).take(n as usize) {
+        out.line(&l);
+    }
 }
 
 /// Byte strings for the `utf8` sub-stream: valid text, every boundary of the well-formedness
